@@ -188,6 +188,74 @@ func runSPS(nalu []byte, beyond bool) (r result) {
 	return r
 }
 
+// spsMapOf builds the spsMap argument from "id:chroma,id:chroma" (only ChromaFormatIDC is consulted by the PPS parser).
+func spsMapOf(arg string) map[uint32]*avc.SPS {
+	m := map[uint32]*avc.SPS{}
+	if arg == "-" || arg == "" {
+		return m
+	}
+	for _, p := range strings.Split(arg, ",") {
+		var id, chroma uint32
+		fmt.Sscanf(p, "%d:%d", &id, &chroma)
+		m[id] = &avc.SPS{ParameterID: id, ChromaFormatIDC: byte(chroma)}
+	}
+	return m
+}
+
+func flatUints(f *flat, name string, l []uint) {
+	f.u(name+".len", uint64(len(l)))
+	for i, x := range l {
+		f.u(fmt.Sprintf("%s[%d]", name, i), uint64(x))
+	}
+}
+
+func flatPPS(p *avc.PPS) *flat {
+	f := &flat{}
+	f.u("PicParameterSetID", uint64(p.PicParameterSetID))
+	f.u("SeqParameterSetID", uint64(p.SeqParameterSetID))
+	f.b("EntropyCodingModeFlag", p.EntropyCodingModeFlag)
+	f.b("BottomFieldPicOrderInFramePresentFlag", p.BottomFieldPicOrderInFramePresentFlag)
+	f.u("NumSliceGroupsMinus1", uint64(p.NumSliceGroupsMinus1))
+	f.u("SliceGroupMapType", uint64(p.SliceGroupMapType))
+	flatUints(f, "RunLengthMinus1", p.RunLengthMinus1)
+	flatUints(f, "TopLeft", p.TopLeft)
+	flatUints(f, "BottomRight", p.BottomRight)
+	f.b("SliceGroupChangeDirectionFlag", p.SliceGroupChangeDirectionFlag)
+	f.u("SliceGroupChangeRateMinus1", uint64(p.SliceGroupChangeRateMinus1))
+	f.u("PicSizeInMapUnitsMinus1", uint64(p.PicSizeInMapUnitsMinus1))
+	flatUints(f, "SliceGroupID", p.SliceGroupID)
+	f.u("NumRefIdxI0DefaultActiveMinus1", uint64(p.NumRefIdxI0DefaultActiveMinus1))
+	f.u("NumRefIdxI1DefaultActiveMinus1", uint64(p.NumRefIdxI1DefaultActiveMinus1))
+	f.b("WeightedPredFlag", p.WeightedPredFlag)
+	f.u("WeightedBipredIDC", uint64(p.WeightedBipredIDC))
+	f.i("PicInitQpMinus26", int64(p.PicInitQpMinus26))
+	f.i("PicInitQsMinus26", int64(p.PicInitQsMinus26))
+	f.i("ChromaQpIndexOffset", int64(p.ChromaQpIndexOffset))
+	f.b("DeblockingFilterControlPresentFlag", p.DeblockingFilterControlPresentFlag)
+	f.b("ConstrainedIntraPredFlag", p.ConstrainedIntraPredFlag)
+	f.b("RedundantPicCntPresentFlag", p.RedundantPicCntPresentFlag)
+	f.b("Transform8x8ModeFlag", p.Transform8x8ModeFlag)
+	f.b("PicScalingMatrixPresentFlag", p.PicScalingMatrixPresentFlag)
+	flatScaling(f, "PicScalingLists", p.PicScalingLists)
+	f.i("SecondChromaQpIndexOffset", int64(p.SecondChromaQpIndexOffset))
+	return f
+}
+
+func runPPS(nalu []byte, arg string) (r result) {
+	p := hx.Try(func() {
+		s, err := avc.ParsePPSNALUnit(hx.Exact(nalu), spsMapOf(arg))
+		if err != nil {
+			r = result{outcome: "err", errStr: err.Error()}
+			return
+		}
+		r = result{outcome: "ok", f: flatPPS(s)}
+	})
+	if p != "" {
+		r = result{outcome: "panic", errStr: p}
+	}
+	return r
+}
+
 type caseLine struct {
 	kind, id, arg, nalu, g, exp string
 }
@@ -217,6 +285,8 @@ func runCase(c caseLine) result {
 	switch c.kind {
 	case "SPS":
 		return runSPS(nalu, c.arg == "1")
+	case "PPS":
+		return runPPS(nalu, c.arg)
 	}
 	return runHevcCase(c, nalu)
 }
@@ -361,6 +431,16 @@ func corr(cases []caseLine, repo string) {
 	}
 	cap := captured(repo)
 	k := 0
+	allSps := make([]string, 0, 32)
+	for i := 0; i < 32; i++ {
+		allSps = append(allSps, fmt.Sprintf("%d:1", i))
+	}
+	for _, n := range cap["avc"] {
+		if n[0]&0x1f == 8 {
+			emitObs(caseLine{"PPS", fmt.Sprintf("c%d", k), strings.Join(allSps, ","), hx.Hex(n), "0", "-"})
+			k++
+		}
+	}
 	for _, n := range cap["avc"] {
 		if n[0]&0x1f == 7 {
 			for _, arg := range []string{"0", "1"} {
@@ -377,6 +457,8 @@ func siteOf(kind string) string {
 	switch kind {
 	case "SPS":
 		return "avc.ParseSPSNALUnit"
+	case "PPS":
+		return "avc.ParsePPSNALUnit"
 	}
 	return hevcSiteOf(kind)
 }
